@@ -332,6 +332,26 @@ pub fn build_dict(sys_csv: &str, user_csvs: &[String], cfg_json: &str) -> Result
     JapaneseDictionary::from_cfg_storage(&cfg, data).map_err(|e| format!("load: {}", e))
 }
 
+/// Other JapaneseDictionary instances over the same system dictionary: without user dictionaries, and -- when there are
+/// user dictionaries -- with user dictionaries that have other words (other key lengths, no units) at the same ids.
+/// Result lists built for them are targets of on-demand splits: the parts must not depend on the target's dictionary.
+pub fn other_dicts(sys_csv: &str, user_csvs: &[String], cfg_json: &str) -> Vec<Dict> {
+    let mut v = vec![];
+    if let Ok(d) = build_dict(sys_csv, &[], cfg_json) {
+        v.push(Rc::new(d));
+    }
+    if !user_csvs.is_empty() {
+        let fake: Vec<String> = user_csvs
+            .iter()
+            .map(|u| (0..u.lines().count()).map(|i| format!("ズ{k}ズ,0,0,9000,ズ{k}ズ,{p},ヨz{k},ズ{k}ズ,*,A,*,*,*,*\n", k = i, p = POS)).collect::<String>())
+            .collect();
+        if let Ok(d) = build_dict(sys_csv, &fake, cfg_json) {
+            v.push(Rc::new(d));
+        }
+    }
+    v
+}
+
 /// pre-normalisation spellings: (normalised, original)
 const VARIANTS: [(&str, &str); 10] = [("a", "A"), ("a", "Ａ"), ("a", "ぁ"), ("b", "B"), ("b", "Ｂ"), ("é", "É"), ("あい", "q"), ("京", "zz"), ("キロ", "㌔"), ("é", "é")];
 
@@ -687,6 +707,7 @@ pub struct CaseIn {
     pub user_csvs: Vec<String>,
     pub text: String,
     pub path_rewrite: String, // JSON of the configured path-rewrite plugins ("" = none)
+    pub others: Vec<Dict>,    // other dictionary instances over the same system dictionary (no / different user dictionaries)
 }
 
 fn run_case(sink: &mut Sink, lx: &Lexica, dict: &Dict, ci: &CaseIn, ill_formed: bool, verbose: bool) {
@@ -964,6 +985,24 @@ fn run_case(sink: &mut Sink, lx: &Lexica, dict: &Dict, ci: &CaseIn, ill_formed: 
                 }
                 seen
             });
+            // on-demand split into a result list that belongs to ANOTHER dictionary instance (same system dictionary, no or
+            // other user dictionaries): the parts come from the dictionary of the list that owns the morpheme
+            'others: for (k, od) in ci.others.iter().enumerate() {
+                for i in 0..c.ctoks.len() {
+                    for (m, exp) in [(Mode::A, &sa[i]), (Mode::B, &sb[i])] {
+                        let got = catch(|| {
+                            let mut out = MorphemeList::empty(od.clone());
+                            let flag = c.list.get(i).split_into(m, &mut out).expect("split_into error");
+                            (flag, observe(&out))
+                        })
+                        .ok();
+                        if &got != exp {
+                            sink.fail(id, &format!("split_into({:?}) of token {} into a result list of another dictionary instance ({}) gives {:?}, into a list of its own dictionary {:?}", m, i, if k == 0 { "same system dictionary, no user dictionary" } else { "same system dictionary, other user dictionaries" }, got, exp), "");
+                            break 'others;
+                        }
+                    }
+                }
+            }
             match shared {
                 Err(p) => sink.fail(id, &format!("tokenizers sharing one result list: panic: {}", p), ""),
                 Ok(seen) => {
@@ -1056,7 +1095,7 @@ fn key_length_boundary(sink: &mut Sink, cfg: &str) {
 pub fn run(args: &Args) {
     let mut sink = Sink::new("C09", &args.out, &["Model.Split", "Model.SplitSource"], args.seed, &args.tier);
     sink.shard_size = 100;
-    sink.rule("generated system + 0..2 user dictionaries (atoms of 1/2/3/4-byte code points, headwords (column 4) often of another byte length than the key, compounds declaring A and B units by id, U-id or inline reference: system->system, user->system, user->user; no-units columns written as `*` or as the empty column; homographs; user copies of system words (same key, headword, POS, reading) referenced inline, so that the own-rows-first look-up order matters; words with exactly one unit; unindexed unit targets) compiled by DictBuilder and loaded with DefaultInputTextPlugin + a rewrite.def whose rules change byte lengths, under path-rewrite stacks {none, JoinKatakanaOovPlugin minLength 1..4, JoinNumericPlugin, both} over dictionaries whose katakana / numeral words declare units (a token merged by a plugin declares none: unchanged in A/B, split_into false); texts = 1..4 dictionary words / stray characters, randomly re-spelt in pre-normalisation form (upper case, full width, ㌔, rewrite rules); per text: C, A, B tokenisation by tokenizers that are fresh or were switched between modes (set_mode history, with analyses in between) before, A and B again under restricted field requests (nothing, single fields, two drawn from the text; both orders of set_subset / set_mode; directly and through split_into on a mode-C result), and split_into(A/B) of every C token (sub-token ranges also checked against the unit key lengths); one result list shared by four tokenizers of different modes and field requests collecting in turn; non-trivial = some C token declares >= 2 units; a separate malformed stream uses ill-formed declarations (unit list too short / first unit longer than the text)");
+    sink.rule("generated system + 0..2 user dictionaries (atoms of 1/2/3/4-byte code points, headwords (column 4) often of another byte length than the key, compounds declaring A and B units by id, U-id or inline reference: system->system, user->system, user->user; no-units columns written as `*` or as the empty column; homographs; user copies of system words (same key, headword, POS, reading) referenced inline, so that the own-rows-first look-up order matters; words with exactly one unit; unindexed unit targets) compiled by DictBuilder and loaded with DefaultInputTextPlugin + a rewrite.def whose rules change byte lengths, under path-rewrite stacks {none, JoinKatakanaOovPlugin minLength 1..4, JoinNumericPlugin, both} over dictionaries whose katakana / numeral words declare units (a token merged by a plugin declares none: unchanged in A/B, split_into false); texts = 1..4 dictionary words / stray characters, randomly re-spelt in pre-normalisation form (upper case, full width, ㌔, rewrite rules); per text: C, A, B tokenisation by tokenizers that are fresh or were switched between modes (set_mode history, with analyses in between) before, A and B again under restricted field requests (nothing, single fields, two drawn from the text; both orders of set_subset / set_mode; directly and through split_into on a mode-C result), and split_into(A/B) of every C token (sub-token ranges also checked against the unit key lengths); one result list shared by four tokenizers of different modes and field requests collecting in turn; split_into into result lists of other dictionary instances (same system dictionary, no / other user dictionaries); non-trivial = some C token declares >= 2 units; a separate malformed stream uses ill-formed declarations (unit list too short / first unit longer than the text)");
     let res = prepare_resources(&args.work);
     let cfg = config_json(&res, "");
     if let Some(p) = &args.replay {
@@ -1067,7 +1106,9 @@ pub fn run(args: &Args) {
             user_csvs: case["user_csvs"].as_array().unwrap().iter().map(|x| x.as_str().unwrap().to_string()).collect(),
             text: case["text"].as_str().unwrap().to_string(),
             path_rewrite: case["path_rewrite"].as_str().unwrap_or("").to_string(),
+            others: vec![],
         };
+        let ci = CaseIn { others: other_dicts(&ci.sys_csv, &ci.user_csvs, &config_json(&res, &ci.path_rewrite)), ..ci };
         let lx = lexica_from_json(&case["lexica"]);
         println!("system lexicon:\n{}", ci.sys_csv);
         for (i, u) in ci.user_csvs.iter().enumerate() {
@@ -1093,8 +1134,9 @@ pub fn run(args: &Args) {
         lx.words.push(Word { dic: 0, idx: 5, key: "aa".into(), head: "AA".into(), cost: 900, indexed: true, shadow_of: None, a: vec![(0, 1, false), (0, 1, false)], b: vec![] });
         let sys_csv = lx.csv(0);
         let dict: Dict = Rc::new(build_dict(&sys_csv, &[], &cfg).expect("corpus dictionary"));
+        let corpus_others = other_dicts(&sys_csv, &[], &cfg);
         for text in ["ＡＢ", "ab", "AB", "abab", "xＡb。", "", "ba", "bbaa", "xbaab"] {
-            let ci = CaseIn { sys_csv: sys_csv.clone(), user_csvs: vec![], text: text.to_string(), path_rewrite: String::new() };
+            let ci = CaseIn { sys_csv: sys_csv.clone(), user_csvs: vec![], text: text.to_string(), path_rewrite: String::new(), others: corpus_others.clone() };
             run_case(&mut sink, &lx, &dict, &ci, false, false);
             sink.tag("corpus_split_alpha");
         }
@@ -1142,6 +1184,7 @@ pub fn run(args: &Args) {
             }
         };
         built += 1;
+        let others = if ill { vec![] } else { other_dicts(&sys_csv, &user_csvs, &cfg) };
         for k in 0..per {
             let text = match lx.ill_formed {
                 // a first unit longer than the text: the word alone (anywhere else the sub-token ranges would be
@@ -1162,7 +1205,7 @@ pub fn run(args: &Args) {
                 // original-text offsets
                 _ => gen_text_opt(&mut rng, &lx, path_rewrite.is_empty()),
             };
-            let ci = CaseIn { sys_csv: sys_csv.clone(), user_csvs: user_csvs.clone(), text, path_rewrite: path_rewrite.clone() };
+            let ci = CaseIn { sys_csv: sys_csv.clone(), user_csvs: user_csvs.clone(), text, path_rewrite: path_rewrite.clone(), others: others.clone() };
             run_case(&mut sink, &lx, &dict, &ci, ill, false);
         }
     }
